@@ -18,8 +18,8 @@ Model of the RUNNING STATISTICS behind `stats` / `stats … by` and of their MER
   pkg/segment/results/blockresults/blockresult.go  : updateEValFromRunningBuckets — count (757), avg (823-826), range (899-917),
                                            sum/min/max (1023-1035);  GroupByBuckets.MergeBuckets (1049-1069)
 
-The code is mirrored AS IT IS, quirks included.  Four defects found with this slice were repaired (patches
-build/patches/c04-1..4, commits pending); the model follows the FIXED code and keeps the former behaviour under
+The code is mirrored AS IT IS, quirks included.  Five defects found with this slice were repaired (patches
+build/patches/c04-1..4 committed, c04-7 pending); the model follows the FIXED code and keeps the former behaviour under
 explicitly named `…Old` definitions (with counterexample theorems in Props/C04.lean):
   * c04-1 `SegStats.Merge` now ORs `IsNumeric` (`SegStats.mergeOld` / `mergeOOld`: the receiver's flag was kept, so a
     text-only first part made GetSegSum / GetSegAvg refuse the merged statistics);
@@ -28,8 +28,10 @@ explicitly named `…Old` definitions (with counterexample theorems in Props/C04
     ProcessReduce kept the string, so the answer depended on the order of the events);
   * c04-4 `AddSegStatsStr` now uses FastParseFloat like the ingest path (`addStrQOld` / `foldQOld`: strconv.ParseFloat,
     which also reads "nan", "inf", "1_000", "0x1p-2" as numbers).
+  * c04-7 the group-by bucket divides avg by the number of records that had a NUMERIC value (`RB.nc`; `resultRBOld`:
+    by the number of records of the bucket).
 Still as found (known findings):
-  * the group-by bucket divides avg by the number of RECORDS of the bucket and answers count(x) with it;
+  * the group-by bucket answers count(x) with the number of RECORDS of the bucket;
   * the integer sum is an int64 and wraps; it becomes a float64 at the first float and stays one; getRange wraps too.
 
 Numbers.  `Num.int` is an int64 (every addition is wrapped explicitly with `wrapS64`).  float64 values are EXACT
@@ -492,6 +494,7 @@ structure RB where
   sum : CV         -- the Sum cell (rawVal after syncRawValue): invalid | backfill | int | flt
   min : CV
   max : CV
+  nc : Nat         -- numCount of the Sum cell (patch c04-7): records whose value was numeric
 deriving DecidableEq, Repr
 
 /-- ProcessReduce for Sum: the first call turns an INVALID cell into BACKFILL (runningstats.go:432-434); then
@@ -526,13 +529,13 @@ def Val.toCV : Val → CV
   | .flt q => .flt q
   | .str s => .str s
 
-def newRB : RB := ⟨0, .invalid, .invalid, .invalid⟩
+def newRB : RB := ⟨0, .invalid, .invalid, .invalid, 0⟩
 
 /-- AddMeasureResultsToKey of one record -/
 def stepRB (rnd : Rat → Rat) (o : Option RB) (v : Val) : Option RB :=
   let b := o.getD newRB
   let e := v.toCV
-  some ⟨b.n + 1, sumStep rnd b.sum e, mmStep rnd true b.min e, mmStep rnd false b.max e⟩
+  some ⟨b.n + 1, sumStep rnd b.sum e, mmStep rnd true b.min e, mmStep rnd false b.max e, b.nc + (if e.isNumeric then 1 else 0)⟩
 
 def foldRB (rnd : Rat → Rat) (vs : List Val) : Option RB := vs.foldl (stepRB rnd) none
 
@@ -540,19 +543,19 @@ def foldRB (rnd : Rat → Rat) (vs : List Val) : Option RB := vs.foldl (stepRB r
 def stepRBOld (rnd : Rat → Rat) (o : Option RB) (v : Val) : Option RB :=
   let b := o.getD newRB
   let e := v.toCV
-  some ⟨b.n + 1, sumStep rnd b.sum e, mmStepOld rnd true b.min e, mmStepOld rnd false b.max e⟩
+  some ⟨b.n + 1, sumStep rnd b.sum e, mmStepOld rnd true b.min e, mmStepOld rnd false b.max e, b.nc + (if e.isNumeric then 1 else 0)⟩
 def foldRBOld (rnd : Rat → Rat) (vs : List Val) : Option RB := vs.foldl (stepRBOld rnd) none
 
 /-- GroupByBuckets.MergeBuckets for one key / MergeRunningBuckets -/
 def mergeRB (rnd : Rat → Rat) : Option RB → Option RB → Option RB
   | none, b => b
   | some a, none => some a
-  | some a, some b => some ⟨a.n + b.n, sumStep rnd a.sum b.sum, mmStep rnd true a.min b.min, mmStep rnd false a.max b.max⟩
+  | some a, some b => some ⟨a.n + b.n, sumStep rnd a.sum b.sum, mmStep rnd true a.min b.min, mmStep rnd false a.max b.max, a.nc + b.nc⟩
 
 def mergeRBOld (rnd : Rat → Rat) : Option RB → Option RB → Option RB
   | none, b => b
   | some a, none => some a
-  | some a, some b => some ⟨a.n + b.n, sumStep rnd a.sum b.sum, mmStepOld rnd true a.min b.min, mmStepOld rnd false a.max b.max⟩
+  | some a, some b => some ⟨a.n + b.n, sumStep rnd a.sum b.sum, mmStepOld rnd true a.min b.min, mmStepOld rnd false a.max b.max, a.nc + b.nc⟩
 
 /-- CValueEnclosure.GetFloatValue -/
 def CV.float? (rnd : Rat → Rat) : CV → Option Rat
@@ -570,7 +573,8 @@ structure RBResult where
   range : CV
 deriving DecidableEq, Repr
 
-/-- updateEValFromRunningBuckets: avg = sum / bucket.count, count(x) = bucket.count, range = float(max) − float(min) -/
+/-- updateEValFromRunningBuckets (as FIXED, patch c04-7): avg = sum / numCount of the Sum cell (bucket.count only when the
+cell carries no count), count(x) = bucket.count (still as found), range = float(max) − float(min) -/
 def resultRB (rnd : Rat → Rat) (b : RB) : RBResult :=
   { n := b.n
     sum := b.sum
@@ -578,10 +582,19 @@ def resultRB (rnd : Rat → Rat) (b : RB) : RBResult :=
     max := b.max
     avg := match b.sum.float? rnd with
       | none => .invalid
-      | some s => if b.n = 0 then .flt 0 else .flt (rnd (s / rnd (b.n : Rat)))
+      | some s =>
+        let d := if b.nc = 0 then b.n else b.nc
+        if d = 0 then .flt 0 else .flt (rnd (s / rnd (d : Rat)))
     count := b.n
     range := match b.min.float? rnd, b.max.float? rnd with
       | some mn, some mx => .flt (rnd (mx - mn))
       | _, _ => .invalid }
+
+/-- BEFORE the fix c04-7: avg = sum / bucket.count, the number of RECORDS of the group -/
+def resultRBOld (rnd : Rat → Rat) (b : RB) : RBResult :=
+  { resultRB rnd b with
+    avg := match b.sum.float? rnd with
+      | none => .invalid
+      | some s => if b.n = 0 then .flt 0 else .flt (rnd (s / rnd (b.n : Rat))) }
 
 end SigModel.Stats
